@@ -10,6 +10,7 @@ import operator
 
 from crosshair.libimpl import builtinslib as bl
 from crosshair.tracers import NoTracing
+from crosshair.util import CrossHairValue
 
 
 def _nonfinite(x):
@@ -43,6 +44,26 @@ def install():
         return orig_get(self, typ)
 
     bl.ModelingDirector.get = get
+
+    # 3. int(<real-based symbolic float>) realises its argument in CrossHair's int() patch although the class has an
+    #    exact symbolic __int__ (truncation toward zero via ToInt); route it there (pyrepseq: int(len(seqs) / n_cpu)).
+    import crosshair.core as core
+    from crosshair.core_and_libs import _make_registrations
+    if not core._PATCH_REGISTRATIONS:
+        _make_registrations()
+    orig_int = core._PATCH_REGISTRATIONS[int]
+
+    def patched_int(val=0, *a, **kw):
+        with NoTracing():
+            is_real = isinstance(val, bl.RealBasedSymbolicFloat) and not a and not kw
+            concrete = not any(isinstance(x, CrossHairValue) for x in (val,) + a + tuple(kw.values()))
+        if is_real:
+            return val.__int__()
+        if concrete:
+            return int(val, *a, **kw)      # caller is the override itself -> dispatched to the real int
+        return orig_int(val, *a, **kw)
+
+    core._PATCH_REGISTRATIONS[int] = patched_int
     for cls in (bl.RealBasedSymbolicFloat, bl.SymbolicInt):
         for name, op in (("__lt__", operator.lt), ("__le__", operator.le), ("__gt__", operator.gt),
                          ("__ge__", operator.ge), ("__eq__", operator.eq), ("__ne__", operator.ne)):
